@@ -34,7 +34,7 @@ from liquid.tag import Tag
 from liquid.template import BoundTemplate
 from liquid.token import TOKEN_EOF, TOKEN_TAG, Token
 
-from vf.hx import excluded, finish
+from vf.hx import drive, excluded, finish
 
 PROPERTY = "C03"
 CONDITIONS = []
@@ -753,12 +753,18 @@ def run3(env, src, data):
             t = env.from_string(src)
         except Exception as e:
             return ("parse-raise", type(e).__name__)
-        try:
-            return ("ok", t.render(**data))
-        except LiquidError as e:
-            return ("render-raise", type(e).__name__)
-        except Exception as e:
-            return ("other", type(e).__name__)
+        def one(thunk):
+            try:
+                return ("ok", thunk())
+            except LiquidError as e:
+                return ("render-raise", type(e).__name__)
+            except Exception as e:
+                return ("other", type(e).__name__)
+        a = one(lambda: t.render(**data))
+        b = one(lambda: drive(t.render_async(**data)))
+        if a != b:
+            return ("sync/async differ", a, b)
+        return a
 
 
 def r3(group, k, d):
@@ -940,6 +946,10 @@ def _corpus_check(w2, w1, leaf, d):
             return {"parses in STRICT but not in": str(m)}
         r, seen = watch(lambda: ts[m].render(**_corpus.data(d)))
         res[m] = (r[0], r[1] if r[0] == "ok" else type(r[1]).__name__, len(seen))
+        ra, seen_a = watch(lambda: drive(ts[m].render_async(**_corpus.data(d))))
+        res_a = (ra[0], ra[1] if ra[0] == "ok" else type(ra[1]).__name__, len(seen_a))
+        if res_a != res[m]:
+            return {"mode": str(m), "render": res[m], "render_async": res_a}
     if res[Mode.LAX][0] != "ok" or res[Mode.WARN][0] != "ok" or res[Mode.LAX][1] != res[Mode.WARN][1] or res[Mode.LAX][2] != 0:
         return {"strict": strict, "lax": res[Mode.LAX], "warn": res[Mode.WARN]}
     if strict[0] == "ok" and (strict[1] != res[Mode.LAX][1] or res[Mode.WARN][2] != 0):
@@ -964,7 +974,7 @@ OUTSIDE = [
     "context_depth_limit below 4 (the outermost scope of any render is already deeper: nothing renders in any mode)",
     "sources the template lexer itself rejects (they raise in every mode by design)",
     "non-Liquid exceptions raised while rendering (C02)",
-    "custom tags other than the harness stubs; custom loaders; async rendering",
+    "custom tags other than the harness stubs; custom loaders; async rendering of the R1 skeletons and the R2 kernels (R3, R5 and the corpus render both ways)",
     "malformed sources outside the generated family; data outside the stated bounds",
 ]
 
